@@ -648,15 +648,15 @@ func c19Final(r *Run, k *simkernel.Kernel, order []*c19Plan, calls []*c19Call, g
 				// classification for the known-findings file: who sent it? A request for another name whose process had
 				// been reaped by the kernel (pid free again) although the supervisor's Wait on it had not returned when the
 				// request was made, or that was reaped only after the request was made: the pid-reuse window every
-				// signal-by-pid interface has. (A request for a process whose Wait had returned before - the defect F19
-				// repaired - is not in this class.)
+				// signal-by-pid interface has. (A request for a process whose Wait had returned before - in an earlier step
+				// of the run; within one step the two are concurrent - is the defect F19 repaired and not in this class.)
 				for _, c := range calls {
 					if c.startSeq >= s.Seq || c.endSeq < s.Seq || !(s.Sig == simkernel.SIGTERM && c.kind == "terminate" || s.Sig == simkernel.SIGKILL && c.kind == "kill") {
 						continue
 					}
 					for _, other := range order {
 						if other.name == c.name && other.proc != nil && other.proc.ReapedSeq > 0 && other.proc.ReapedSeq < s.Seq &&
-							(other.proc.WaitDoneSeq == 0 || other.proc.WaitDoneSeq > c.startSeq) {
+							(other.proc.WaitDoneSeq == 0 || other.proc.WaitDoneSeq > c.startSeq || !c19Before(other.proc, c)) {
 							r.Known = fmt.Sprintf("pid-reuse-toctou@%s(%s)", c.kind, c.name)
 						}
 					}
